@@ -397,7 +397,7 @@ class Interp:
 
     def op_bref(self, t, f):
         r = t['r']
-        return self.call('Backreference', 'c', lambda: GR.Backreference(r), lambda: S.backref(r), [])
+        return self.call('Backreference', 'c', lambda: GR.Backreference(r), lambda: S.backref(r), [], flags=['group'])
 
     # ------------------------------------------------------------------ operators
     def subs(self, t):
